@@ -150,6 +150,13 @@ def run(ctx: Ctx):
     ctx.ob("C11.c", "ConstructivePolicy.forward:replay-index", ok, cp.loc, why, construct="ConstructivePolicy.forward:replay-index")
     forced = any(isinstance(n, ast.If) and "actions is not None" in ast.unparse(n.test) and any(isinstance(b, ast.Assign) and ast.unparse(b) == "decode_type = 'evaluate'" for b in n.body) for n in ast.walk(cp.node))
     ctx.ob("C11.c", "ConstructivePolicy.forward:evaluate-forced", forced, cp.loc, "decode_type = 'evaluate' whenever actions are given", construct="ConstructivePolicy.forward:evaluate")
+    reass = [n for n in ast.walk(cp.node) if isinstance(n, (ast.Assign, ast.AugAssign)) and any(isinstance(t, ast.Name) and t.id == "decoding_kwargs" for t in (n.targets if isinstance(n, ast.Assign) else [n.target]))]
+    gds = [n for n in ast.walk(cp.node) if isinstance(n, ast.Call) and ast.unparse(n.func) == "get_decoding_strategy"]
+    fwd = len(gds) == 1 and any(k.arg is None and ast.unparse(k.value) == "decoding_kwargs" for k in gds[0].keywords)
+    ctx.ob("C11.c", "ConstructivePolicy.forward:decoding-kwargs-forwarded", fwd and not reass, cp.loc,
+           "the caller's decoding options (num_starts, select_best, ...) reach the decoding strategy unchanged in every mode, including the `evaluate` replay" if (fwd and not reass) else
+           "decoding_kwargs is rebound / filtered before get_decoding_strategy: a replay with the returned actions runs under other decoding options than the rollout",
+           construct="ConstructivePolicy.forward:decoding-kwargs")
     src = ast.unparse(cp.node)
     okll = "get_log_likelihood(logprobs, actions," in src.replace("\n", " ").replace("  ", " ")
     post = [n for n in ast.walk(cp.node) if isinstance(n, ast.Assign) and "post_decoder_hook" in ast.unparse(n.value)]
